@@ -125,6 +125,9 @@ pub const FRAGMENTS: &[&str] = &[
     "b\" '|c",
     "d|)",
     "",
+    // values whose printed form is empty: the REPL still prints a line for them
+    "\"\"",
+    "(quote ||)",
 ];
 
 #[derive(Debug, PartialEq, Clone)]
@@ -351,6 +354,31 @@ pub fn run(ctx: &Ctx) -> i32 {
             }
         },
     );
+    // scale ladder for the predicate: nesting depth and token length up to 400
+    for n in 1..=400usize {
+        let texts = [
+            format!("{}{}", "(".repeat(n), ")".repeat(n)),
+            format!("{}{}", "(".repeat(n), ")".repeat(n - 1)),
+            format!("{}\n{}", "(a ".repeat(n), ")".repeat(n)),
+            format!("{}\n{}", "(a ".repeat(n), ")".repeat(n - 1)),
+            format!("(\"{}\")", "(".repeat(n)),
+            format!("(\"{}", "(".repeat(n)),
+            format!("(|{}| ;{}\n)", ")".repeat(n), "(".repeat(n)),
+            format!("(|{}| ;{}\n", ")".repeat(n), "(".repeat(n)),
+        ];
+        for s in texts {
+            let want = complete(&s);
+            acc.evals += 1;
+            acc.count("scale ladder: predicate on nesting depth / token length N", 1);
+            match crate::drive::guarded(|| ruschm::repl::verif_check_bracket_closed(&s)) {
+                Ok(got) if got == want => {}
+                other => {
+                    let known = matches!(&other, Ok(got) if *got == complete_naive(&s)).then_some("repl-counts-parens-inside-tokens");
+                    acc.mismatch(Mismatch { idx: 900_000_000_000 + n as u64, case: format!("[predicate, n={}] {:?}", n, s), expected: format!(": complete = {}", want), observed: format!("{:?}", other), payload: json!({"kind": "predicate", "text": s}) }, known);
+                }
+            }
+        }
+    }
     // ---- (2) sessions through the built binary ----
     let max_lines = 3;
     let kf = FRAGMENTS.len() as u64;
@@ -371,6 +399,31 @@ pub fn run(ctx: &Ctx) -> i32 {
             }
             v.reverse();
             splits.push(v);
+        }
+    }
+    // scale ladder: one form nested N deep for every N, entered on one line, split in the middle,
+    // and one level per line; a long string / |symbol| / comment full of parentheses
+    let deep = if ctx.thorough() { 400 } else { 200 };
+    for n in 1..=deep {
+        let open = "(+ 1 ".repeat(n);
+        let close = ")".repeat(n);
+        let wrap = |mid: Vec<String>| {
+            let mut v = vec!["(define base 1000)".to_string()];
+            v.extend(mid);
+            v.push("base".to_string());
+            v
+        };
+        match n % 3 {
+            0 => splits.push(wrap(vec![format!("{}0{}", open, close)])),
+            1 => splits.push(wrap(vec![format!("{}0{}", open, &close[..n / 2]), close[n / 2..].to_string()])),
+            _ => {
+                let mut lines: Vec<String> = (0..n).map(|_| "(+ 1".to_string()).collect();
+                lines.push(format!("0{}", close));
+                splits.push(wrap(lines));
+            }
+        }
+        if n % 10 == 0 {
+            splits.push(wrap(vec![format!("(list \"{}", "(".repeat(n)), format!("{}\" '|{}|", ")".repeat(n / 2), "(".repeat(n)), format!("; {}", "(".repeat(n)), ")".to_string()]));
         }
     }
     let total = n_sess + splits.len() as u64;
@@ -423,7 +476,7 @@ pub fn run(ctx: &Ctx) -> i32 {
             tier: ctx.tier_name(),
             seed: ctx.seed,
             exhaustive: true,
-            rule: format!("(1) the REPL's completeness test (hook verif_check_bracket_closed) on every string of length <= {} over {:?} against the reference predicate; (2) every sequence of <= {} input lines from {} fragments (thorough: also every 4-line sequence over the first 18) (definitions, values, unspecified values, failing forms, two forms on one line, halves of forms, a comment / string / character / |symbol| containing a parenthesis, a lone closing parenthesis) plus every two-line split of twelve forms at every token gap, fed to the built binary over a pipe; transcript (stdout and stderr lines) compared with the reference REPL; transitions = input lines", maxlen, ALPHABET, max_lines, FRAGMENTS.len()),
+            rule: format!("(1) the REPL's completeness test (hook verif_check_bracket_closed) on every string of length <= {} over {:?} against the reference predicate; (2) every sequence of <= {} input lines from {} fragments (thorough: also every 4-line sequence over the first 18) (definitions, values, unspecified values, failing forms, two forms on one line, halves of forms, a comment / string / character / |symbol| containing a parenthesis, a lone closing parenthesis) plus every two-line split of twelve forms at every token gap, plus one form nested N deep for every N <= 200 (thorough 400) on one line / split in the middle / one level per line, and long tokens full of parentheses; the predicate also on nesting depth and token length up to 400; fed to the built binary over a pipe; transcript (stdout and stderr lines) compared with the reference REPL; transitions = input lines", maxlen, ALPHABET, max_lines, FRAGMENTS.len()),
             bounds: json!({"predicate_strings": n_pred, "max_len": maxlen, "sessions": total, "max_lines": max_lines}),
             assumptions: vec!["the reference REPL evaluates submissions through the library interface on one interpreter (the property's own differential); terminal mode (line editing, history, Ctrl-C) is not driven".into()],
             wall_s: ctx.elapsed(),
@@ -435,9 +488,9 @@ pub fn run(ctx: &Ctx) -> i32 {
 pub fn replay(p: &serde_json::Value) -> bool {
     if p["kind"] == "predicate" {
         let s = p["text"].as_str().unwrap();
-        let (w, g) = (complete(s), ruschm::repl::verif_check_bracket_closed(s));
-        println!("{:?}: reference {} implementation {}", s, w, g);
-        return w != g;
+        let (w, g) = (complete(s), crate::drive::guarded(|| ruschm::repl::verif_check_bracket_closed(s)));
+        println!("{:?}: reference {} implementation {:?}", s, w, g);
+        return g != Ok(w);
     }
     let lines: Vec<String> = p["lines"].as_array().unwrap().iter().map(|l| l.as_str().unwrap().to_string()).collect();
     let l: Vec<&str> = lines.iter().map(|s| s.as_str()).collect();
